@@ -51,6 +51,17 @@ PIPES = {
         _f("f", ["x"], {"x": ["i"]}, ["i", "u"], ["u"], ["a"]), _f("g", ["a"], {"a": ["i", None]}, ["i"], [], ["c"])]},
     "reduce-other-axis": {"roots": {"x": ["i"], "q": ["j"]}, "sizes": S3, "axes": ["i"], "reduced": ["j"], "funcs": [
         _f("f", ["x", "q"], {"x": ["i"], "q": ["j"]}, ["i", "j"], [], ["a"]), _f("g", ["a"], {"a": ["i", None]}, ["i"], [], ["b"])]},
+    # an array consumed by a partial reducer AND (listed later / earlier) by a full reducer: every axis is reduced, so no axis
+    # may be fixed; rejections only (no part can be run)
+    "partial-then-full-reducer": {"roots": {"x": ["i"], "q": ["j"]}, "sizes": S3, "axes": [], "reduced": ["i", "j"], "funcs": [
+        _f("f", ["x", "q"], {"x": ["i"], "q": ["j"]}, ["i", "j"], [], ["a"]), _f("g", ["a"], {"a": ["i", None]}, ["i"], [], ["b"]),
+        _f("h", ["a"], None, [], [], ["t"])]},
+    "full-then-partial-reducer": {"roots": {"x": ["i"], "q": ["j"]}, "sizes": S3, "axes": [], "reduced": ["i", "j"], "funcs": [
+        _f("f", ["x", "q"], {"x": ["i"], "q": ["j"]}, ["i", "j"], [], ["a"]), _f("h", ["a"], None, [], [], ["t"]),
+        _f("g", ["a"], {"a": [None, "j"]}, ["j"], [], ["b"])]},
+    "two-partial-reducers": {"roots": {"x": ["i"], "q": ["j"]}, "sizes": S3, "axes": [], "reduced": ["i", "j"], "funcs": [
+        _f("f", ["x", "q"], {"x": ["i"], "q": ["j"]}, ["i", "j"], [], ["a"]), _f("g", ["a"], {"a": ["i", None]}, ["i"], [], ["b"]),
+        _f("h", ["a"], {"a": [None, "j"]}, ["j"], [], ["c"])]},
     "independent-single": {"roots": {"x": ["i"], "n": []}, "sizes": S3, "axes": ["i"], "funcs": [
         _f("f", ["x"], {"x": ["i"]}, ["i"], [], ["y"]), _f("h", ["n"], None, [], [], ["m"])]},
 }
@@ -437,7 +448,8 @@ def rejection_cases(pipe):
         cases.append(({a: 0}, "reduced-axis"))
         cases.append(({a: sel_json(slice(None))}, "reduced-axis"))
     cases.append(({"zz": 0}, "unknown-axis"))
-    cases.append(({spec["axes"][0]: 0, "zz": 0}, "unknown-axis"))
+    if spec["axes"]:
+        cases.append(({spec["axes"][0]: 0, "zz": 0}, "unknown-axis"))
     for a, k in n.items():
         cases.append(({a: k}, "out-of-range"))
         cases.append(({a: -k - 1}, "out-of-range"))
@@ -462,6 +474,9 @@ def plan(tier, seed):
     units = []
     rich = tier == "thorough"
     for pipe in PIPES:
+        if not PIPES[pipe]["axes"]:
+            units.append(("C-rejections", ("C", {"pipe": pipe, "storage": "file_array"})))
+            continue
         for storage in ("file_array", "dict") if (rich or pipe in ("chain", "tuple-zip", "outer2d")) else ("file_array",):
             for hist in model_states(PIPES[pipe], selector_alphabet(PIPES[pipe], rich)):
                 units.append(("A-bfs-fixed-indices", ("A", {"pipe": pipe, "storage": storage}, rich, hist)))
@@ -469,6 +484,8 @@ def plan(tier, seed):
             units.append(("C-rejections", ("C", {"pipe": pipe, "storage": "file_array"})))
     for pipe in PIPES:
         spec = PIPES[pipe]
+        if not spec["axes"]:
+            continue
         fixes = [None, {spec["axes"][0]: 1}, {spec["axes"][0]: sel_json(slice(None, None, 2))}]
         if rich:
             fixes += [{spec["axes"][0]: -1}, {spec["axes"][0]: sel_json(slice(None, None, -1))}]
